@@ -91,7 +91,18 @@ def base_dir():
         import atexit
         import shutil
 
-        d = tempfile.mkdtemp(prefix="c20-")
+        # a name of fixed length made of digits only: the canary text (which holds the path)
+        # must have the same shape in every run, or readers that look at its characters
+        # (base64, hex data) would take different branches from run to run
+        d = None
+        for n in range(1, 100000000):
+            cand = os.path.join(tempfile.gettempdir(), "c20-%08d" % n)
+            try:
+                os.mkdir(cand, 0o700)
+                d = cand
+                break
+            except FileExistsError:
+                continue
         owner = os.getpid()
         _BASE = (d, owner)
 
@@ -110,7 +121,7 @@ class Watch:
     def __init__(self):
         install()
         _COUNT[0] += 1
-        self.path = os.path.join(base_dir(), "%s_%d_%d" % (MARK, os.getpid(), _COUNT[0]))
+        self.path = os.path.join(base_dir(), "%s_%07d_%07d" % (MARK, os.getpid() % 10000000, _COUNT[0] % 10000000))
         self.executed = []
         self.compiles = 0
 
